@@ -158,6 +158,8 @@ def run_case(case, rec):
                 for _ in range(6):
                     w = r.choice(words)
                     table[(r.choice(qs), r.choice([None, w['pos']]))] = {w['forms'][0], r.choice(qs)}
+                # a lemmatizer may also answer with a part of speech and no form at all: it proposes nothing then
+                table[(r.choice(qs), r.choice(POS))] = set()
                 custom = custom_lemmatizer(table)
                 w0 = wn.Wordnet(' '.join(sel))
                 lemmatizers = [('none', None), ('custom', custom), ('morphy', Morphy()), ('morphy-init', Morphy(w0))]
